@@ -151,6 +151,8 @@ static void blk_groups(void) {
 		uint8_t ps[8][129]; for (int i = 0; i < np; i++) g2_ser(ps[i], &PT[i]);
 		for (int i = 0; i < np; i++) for (int j = 0; j < np; j++) { if (!vh_next()) continue; SM9_Z256_TWIST_POINT R; uint8_t got[129], exp[129]; char w[40]; snprintf(w, sizeof w, "Q%d,Q%d", i, j); int el = mq(exp, 129, "g2add %s %s", hxn(ps[i], g2_len(ps[i])), hxn(ps[j], g2_len(ps[j])));
 			sm9_z256_twist_point_add_full(&R, &PT[i], &PT[j]); g2_ser(got, &R); cmp_pt("g2", "add_full", got, exp, el, g2_len(got), w);
+			/* the mixed addition (second operand normalised, as read from octets): same sum, including equal / opposite / infinite operands */
+			{ SM9_Z256_TWIST_POINT QA; if (ps[j][0] == 0) sm9_z256_twist_point_set_infinity(&QA); else if (sm9_z256_twist_point_from_uncompressed_octets(&QA, ps[j]) != 1) vh_harness_error("g2 octets"); sm9_z256_twist_point_add(&R, &PT[i], &QA); g2_ser(got, &R); cmp_pt("g2", "add-mixed", got, exp, el, g2_len(got), w); }
 			SM9_Z256_TWIST_POINT NQ_; sm9_z256_twist_point_neg(&NQ_, &PT[j]); sm9_z256_twist_point_sub(&R, &PT[i], &NQ_); g2_ser(got, &R); cmp_pt("g2", "sub-of-negated", got, exp, el, g2_len(got), w);
 			if (i == j) { sm9_z256_twist_point_dbl(&R, &PT[i]); g2_ser(got, &R); cmp_pt("g2", "dbl", got, exp, el, g2_len(got), w); } }
 		for (int i = 0; i < np; i++) { if (!vh_next()) continue; if (sm9_z256_twist_point_is_at_infinity(&PT[i])) continue; SM9_Z256_TWIST_POINT A1, R, D; if (sm9_z256_twist_point_from_uncompressed_octets(&A1, ps[i]) != 1) continue; uint8_t got[129], exp[129]; char w[40]; snprintf(w, sizeof w, "Q%d,Q%d(Z=1)", i, i); sm9_z256_twist_point_dbl(&D, &PT[i]); g2_ser(exp, &D);
